@@ -294,8 +294,8 @@ def javaSampleLoop (scale : ScaleFn) (heap : Bool) (period : Int) :
 /-- `(-?[[:digit:]]+)` → value -/
 def parseSignedDec (s : Str) : Option Int :=
   match s with
-  | 45 :: r => (parseNat 10 r).map (fun n => -(n : Int))
-  | _ => (parseNat 10 s).map (fun n => (n : Int))
+  | [] => none
+  | c :: r => if c.toNat == 45 then (parseNat 10 r).map (fun n => -(n : Int)) else (parseNat 10 s).map (fun n => (n : Int))
 
 /-- split at the last `:` -/
 def splitLastColon (s : Str) : Option (Str × Str) :=
@@ -309,10 +309,9 @@ for texts whose only blank run (if any) separates the function from a parenthesi
 def javaClassify (addr : Nat) (t : Str) : JavaInfo :=
   let f := t.takeWhile (fun b => !isReSpace b)
   let rest := skipReSpace (t.dropWhile (fun b => !isReSpace b))
+  let hasWs := decide ((t.dropWhile (fun b => !isReSpace b)).length > rest.length)
   let paren : Option Str :=
-    match rest, t.reverse with
-    | 40 :: inner, 41 :: _ => if (t.dropWhile (fun b => !isReSpace b)).length > rest.length then some inner.dropLast else none
-    | _, _ => none
+    if hasWs && rest.head? == some 40 && t.getLast? == some 41 then some (rest.drop 1).dropLast else none
   match paren with
   | some inner =>
     let fl : Option (Str × Int) :=
